@@ -681,7 +681,7 @@ func (c *PathCtx) ensureInit(pkg *ssa.Package) {
 		return
 	}
 	c.inited[pkg] = true
-	if !c.eng.followPkg(pkg.Pkg.Path()) || !c.eng.initPkgs[pkg.Pkg.Path()] {
+	if !c.eng.initPkgs[pkg.Pkg.Path()] {
 		return
 	}
 	initFn := pkg.Func("init")
